@@ -22,7 +22,7 @@ Targets(ev) ==
 \* the generic judgement: an enabled call must not raise and must satisfy `fails`
 Judge(ev, enabled, fails, p) ==
   IF ~enabled THEN {}
-  ELSE IF ev.outcome = "raise" THEN {p \o ".raises"}
+  ELSE IF ev.outcome = "raise" THEN (IF ev.entry = "suite" THEN {} ELSE {p \o ".raises"})   \* calls traced from the repository's suite may raise on purpose
   ELSE fails
 
 \* C08 says "an operation either does this or raises": raising is never a C08 violation
@@ -1054,6 +1054,8 @@ OpFails(ev, pre) ==
   ELSE IF ev.op = "init" \/ ev.in = <<>> THEN {}
   ELSE IF ev.op = "observe" THEN ObserveEv(ev)
   ELSE IF ev.op \in {"qr", "svd", "eigh", "solve", "svd_truncated"} THEN LinalgFails(ev, pre)
+  ELSE IF \E i \in 1..Len(ev.in) : LET v == pre[ev.in[i]] IN (IsArray(v) \/ IsVector(v)) /\ ~AllExact(v)
+  THEN {}    \* an operand was logged without data (too large / not integral): no value-level clause
   ELSE IF ev.op = "from_dense" THEN FromDenseEv(ev, pre)
   ELSE IF ev.op \in {"from_blocks", "construct", "from_fill_fn"} THEN ConstructEv(ev, pre)
   ELSE IF ev.op = "fuse" THEN FuseEv(ev, pre)
